@@ -786,6 +786,8 @@ def rule_python_parameters(ctx, rule='R16.10', only=None):
 
 
 def run(ctx):
+    from . import c20
+    c20.rule_com_variations(ctx)          # R20.7: moving to the centre of mass shifts every variational configuration by the matching derivative
     rule_python_parameters(ctx, 'R16.10', only=('variation.py',))
     rule_variational_kernel(ctx)
     from . import c15
